@@ -57,6 +57,9 @@ def evaluate(t, st, hooks):
         v = evaluate(t[2], st, hooks)
         if isinstance(v, int):
             return 0 if v else 1
+        r = hooks.oracle(("truth", t[2]), st)
+        if r is not None:
+            return 0 if r else 1
         return ("opaque", AI.tstr(t))
     if t[0] == "cond":
         c = evaluate(t[1], st, hooks)
@@ -76,6 +79,10 @@ def evaluate(t, st, hooks):
         return ("opaque", AI.tstr(t))
     if t[0] == "call" and ("ret", t[1]) in st:
         return st[("ret", t[1])]
+    if t[0] == "call":
+        r = hooks.oracle(("truth", t), st)
+        if r is not None:
+            return 1 if r else 0
     return ("opaque", AI.tstr(t))
 
 
